@@ -5,6 +5,16 @@ V = os.path.dirname(os.path.dirname(os.path.abspath(__file__)))
 NOTE = ("Trusted: Lean 4.33 kernel; axioms propext/Classical.choice/Quot.sound only (audited each run); the translator for regenerated data; "
         "the correspondence suites (differential testing) for the hand-written model; the Spec/ definitions. ")
 CLAIMED = {
+ "C01": ("The supported language is specified independently as a recursive-descent recogniser over the command table (Spec.WF, Lean; shares only the table data with the parser model) with verdicts valid / invalid / outside-the-claim; the check classifies every input of the parse suite with it and requires the real parser to accept the valid and reject the invalid ones, and the verdict to be stable under re-rendering (case, whitespace, CR/LF/CRLF, comments). Kernel-checked: the lexer rule list of the code is the modelled one (regenerated each run). The equivalence theorem between recogniser and machine (parse_complete / parse_sound) is not proved yet: the agreement is established by exhaustive short token sequences + generated scripts + all single edits, so the level is proof for the listed obligations and exploration for the equivalence.",
+         "independent Lean recogniser (Spec.WF) vs parser on exhaustive token sequences + generated scripts/edits; model/code correspondence; regenerated table obligations", "§9 C01"),
+ "C03": ("Theorems, generic in the definition: an argument accepted into slot k is stored under k with exactly the written value, every other argument and every tag parameter is untouched, nothing is recorded nowhere unless the definition is exhausted; dict assignment keeps order and only appends. Machine-level faithfulness (result unparses to the token stream) is an open statement; on the real code every accepted input is compared with the tree of an independent RFC 5228 §8.2 generic-grammar parser with its own tokenizer.",
+         "Lean 4 proof (argument interpreter records faithfully) + independent generic-grammar oracle + correspondence", "§9 C03"),
+ "C04": ("Lean model of Command.tosieve tied to the code by the ser correspondence on every accepted input; lemmas: quoted list items and quoted/bracketed values are printed verbatim, multi-line text gets exactly one LF. The full round-trip theorem needs parse_complete and T-LEX(b) and is open; on the real code every accepted input is printed, re-parsed, compared (arguments by name) and re-printed (fixed point).",
+         "Lean 4 serializer model + lemmas, ser correspondence, round-trip oracle on all accepted inputs", "§9 C04"),
+ "C07": ("Kernel-checked on every run against the table regenerated from /repo: every (command, extension) and (command, tag, extension) pair of the frozen RFC extension map is present in the live table with that extension. Theorems for every table/state/token: a command instance is created only if its extension is loaded; an optional argument is recorded only if its slot's extension is loaded; an extension_values tag only if that extension is loaded; the loaded list only grows and only through require's completion callback. The trace-level statement is open; on the real code every accepted input is walked with the frozen map, and every (valid script, needed extension) removal pair must be rejected naming that extension at its first use, also through a parser that has just parsed the complete script.",
+         "Lean 4 proof (local gating, monotone loaded set) + regenerated table obligation (decide) + frozen-map walk + removal pairs", "§9 C07"),
+ "C20": ("Theorems: after register, the registered identifier (any letter case) resolves to the definition and every other identifier resolves as before; arguments of an arbitrary definition are recorded under the names it gives (instantiation of the generic interpreter theorems). Check: generated definitions of the documented shape are registered with add_commands in-process and shipped to the driver; every enumerated use and single-edit variant is compared with the model and with the independent recogniser on the extended table; accepted uses must be recorded under the defined names and survive print/parse; unknown-before / re-registration / other-names-unknown are exercised.",
+         "Lean 4 proof (registry lemmas, generic interpreter) + custom-table correspondence + recogniser oracle", "§9 C20"),
  "C02": ("Theorems (all inputs): the lexer terminates, every rule consumes ≥1 byte, ≤|text| tokens; a hang can only be a doubly re-delivered token and reassign_arguments succeeds at most once per command; reported line within 1..1+#LF. Crash-freedom of the token machine is an open statement (kept in Props/C02.lean), decided on the real code by the oracle over exhaustive token sequences, generated scripts, edits and byte mutations; model tied to the code by the parse/lex correspondence.",
          "Lean 4 proof (lexer progress/fuel, rewind-once) + model/code correspondence + verdict oracle", "§9 C02"),
  "C13": ("Theorem: the model's parse is independent of the previous parser state; kernel-checked footprint obligations regenerated from /repo each run (every attribute mutated on the parse path is reset, lexer attributes initialised per scan, the only rebound global is reset, no factory call consults the global extension list). History suite replays script sequences through one reused Parser (+ interleaved fresh Parsers and FiltersSet scenarios) against the history-free model and a pristine interpreter.",
